@@ -332,7 +332,7 @@ class Run:
                     o = op[5] if len(op) > 5 and op[5] else {}
                     if o.get('timeout'):
                         m = max(m, o['timeout'])
-                elif k in ('idle', 'stop', 'stop_bus'):
+                elif k in ('idle', 'stop', 'stop_bus', 'step'):
                     if op[2]:
                         m = max(m, op[2])
                 elif k == 'expect':
@@ -614,6 +614,16 @@ class Run:
                     # anything inline, so on an incomplete child (F1) they would block the handler for ever while it holds the lock)
                     self.rec('child_result', by=by, ev=self.tag_of(c))
                     await c.event_result()  # re-raises the child's first error (the original object) inside this handler
+            elif k == 'step':
+                # user code driving a bus by hand from inside a handler: `await asyncio.wait_for(bus.step(), T)` (re-enters the lock)
+                b = self.getbus(op[1])
+                self.rec('step_begin', by=by, bus=op[1])
+                try:
+                    await asyncio.wait_for(b.step(), op[2])
+                except asyncio.TimeoutError:
+                    self.rec('step_timeout', by=by, bus=op[1])
+                finally:
+                    self.rec('step_end', by=by, bus=op[1])
             elif k == 'gather':
                 # `await asyncio.gather(bus_a.dispatch(X()), bus_b.dispatch(Y()))` inside a handler: each child is awaited in a
                 # helper task of its own (created by gather, inheriting the handler's context)
@@ -753,7 +763,7 @@ class Run:
                 except BaseException as ex:
                     got = type(ex).__name__
                 self.rec('event_bus', by=by, got=got)
-            elif k in ('sleep', 'spawn', 'await_shared', 'await_actor', 'stop_bus', 'gather'):
+            elif k in ('sleep', 'spawn', 'await_shared', 'await_actor', 'stop_bus', 'gather', 'step'):
                 continue  # not expressible in a sync handler
             else:
                 raise AssertionError(f'unknown op {op}')
@@ -836,6 +846,27 @@ class Run:
         elif kind == 'sync':
             def handler(event):
                 return s_body(event)
+        elif kind in ('abusm', 'sbusm') and self.buses.get(home) is None:
+            # (registered on another bus before its own bus exists: a plain function then)
+            if kind == 'abusm':
+                async def handler(event):
+                    return await a_body(event)
+            else:
+                def handler(event):  # type: ignore[misc]
+                    return s_body(event)
+        elif kind in ('abusm', 'sbusm'):
+            # a method bound to the BUS itself (an EventBus subclass / instance that registers its own methods as handlers)
+            import types
+            bus = self.buses[home]
+            if kind == 'abusm':
+                async def m(self_bus, event):
+                    return await a_body(event)
+            else:
+                def m(self_bus, event):  # type: ignore[misc]
+                    return s_body(event)
+            m.__name__ = name
+            m.__qualname__ = name
+            return types.MethodType(m, bus)
         elif kind in ('amethod', 'smethod', 'aclassm', 'sclassm'):
             if kind == 'amethod':
                 class Holder:
@@ -973,7 +1004,7 @@ class Run:
                         csq = self.rec('rl_cancel', bus=op[1])
                         done, _p = await asyncio.wait({t}, timeout=op[2] if len(op) > 2 else 1.0)
                         res['done'] = bool(done)
-                        self.rec('rl_cancel_wait', bus=op[1], done=bool(done), cancel_seq=csq)
+                        self.rec('rl_cancel_wait', bus=op[1], done=bool(done), cancel_seq=csq, waited=op[2] if len(op) > 2 else 1.0)
                 else:
                     raise AssertionError(f'unknown actor op {op}')
             except asyncio.CancelledError:
